@@ -4,7 +4,7 @@ import vlib, mirrorcheck
 META = {
     "level": "model_checking",
     "text": "Headers in Mirror.tla carry validator-set ids for the height and the next height; TLC checks that the voting/next-round/committing views always use the set the committed chain prescribes (genesis, then the next-set of the header committed one height below) on chains where the application changes keys and powers at every height, with proposals and replayed headers claiming other sets; the behaviours are replayed on a real Mirror and the oracle compares the real views' full validator sets (keys, powers and both hashes) with the set prescribed by what was committed. StateMachine.tla behaviours (incl. crashes and restarts) are replayed on the real state machine with a driver that changes the set at every height: the finalization store must hold exactly what the driver returned and proposed headers must carry the chain's sets.",
-    "note": "Bounded as C01 with three validator sets. Forged validator LISTS under unchanged hashes are exercised by the valsets world only once listsVS/listsNVS headers are enabled (see DESIGN.md). State-machine side: the replay harness's driver changes the vote powers at every height; predicates FinalizationStoresDriverSet and ProposesWithChainSets are evaluated on the real state machine (same keys, all powers scaled, so that StateMachine.tla's 3-of-4 thresholds stay valid).",
+    "note": "Bounded as C01 with three validator sets. Forged validator LISTS under unchanged hashes are a scripted case on the real Mirror (forged copy first / honest copy first / forged ValidatorSet; predicate ListsMatchHashes), because two header values with one block hash cannot be expressed in Mirror.tla's label-per-hash world. State-machine side: the replay harness's driver changes the vote powers at every height; predicates FinalizationStoresDriverSet and ProposesWithChainSets are evaluated on the real state machine (same keys, all powers scaled, so that StateMachine.tla's 3-of-4 thresholds stay valid).",
     "technique": "TLA+ spec (Mirror.tla) + TLC exhaustive bounded check + replay on the real Mirror with real-state validator-set comparison",
 }
 
@@ -18,6 +18,24 @@ def run(ctx):
     ]
     design = [("Mirror_c07.cfg", {"MaxSteps": 5 if q else 6}, "C07_ViewVS on every reachable state")]
     cov, mismatches, inconcl = mirrorcheck.collect(ctx, {"C07"}, plans, design_cfgs=design)
+    # forged validator LISTS under unchanged hashes (two header values with one block hash cannot be expressed in Mirror.tla's
+    # label-per-hash world, so this is a scripted case on the real Mirror): forged copy first, honest copy first, forged
+    # ValidatorSet; every set of every view and of the stored proposed headers must be the list its hashes were computed from
+    import mirrorlib
+    lrun = mirrorlib.MirrorRun(ctx, "valsets")
+    lrun.build()
+    lout = ctx.path("c07lists.ndjson")
+    rc_l, o_l = ctx.go_test(mirrorlib.PKG, "^TestVerifC07Lists$", binary=lrun.binary, env={"VERIF_WORLD": lrun.world_json, "VERIF_OUT": lout}, timeout=300)
+    lrecs = [r for r in vlib.read_ndjson(lout) if r.get("kind") == "c07lists"]
+    if len(lrecs) < 3:
+        raise vlib.Inconclusive("forged validator list cases did not run:\n" + o_l[-2000:])
+    for r in lrecs:
+        bad = sorted(k for k, v in r.items() if k.endswith("_lists_match_hashes") and v is False)
+        if bad:
+            ctx.violation("ListsMatchHashes", "HandleProposedHeader", r["variant"] + ":" + ",".join(b.replace("_lists_match_hashes", "") for b in bad),
+                          "a proposed header with a forged validator list under unchanged hashes (%s) was accepted (%s): %s hold a list that does not match the hashes covered by the committed block hash"
+                          % (r["variant"], r.get("ph_results"), ", ".join(b.replace("_lists_match_hashes", "") for b in bad)), replay_obj={"case": r})
+    cov["forged_validator_list_cases"] = len(lrecs)
     # the state machine half: the driver of the replay harness changes the vote powers at every height (finalizing h returns
     # a set that applies from h+2 on, checks/sm_worlds.py); on the real state machine the finalization store must record
     # exactly the returned set and every header it proposes must carry the sets the chain prescribes for its height and the next
